@@ -62,7 +62,7 @@ type singleAPI struct {
 
 const (
 	tieLate     = "single-item-adapter"
-	tieLateRule = "K4-style acceptor: every single-item scenario (adapter x level x park mode x at-return / after-seed x del / cancel x 0-2 updates in the window x backpressure x updates-only) is run on the real code and its end state — the subscriber's channel closed or still open when the delete has returned and the bound has passed, number of changes received — is given to the Lean late-subscription model (Late.lean with sync = true: the adapter subscribes before it returns; PullID pipeline with or without mergeCollectionExcess), which explores every interleaving of subscribing call, subscription step, writes, pipeline goroutines and an always-receiving subscriber and must have a quiescent end state with exactly this outcome. non-trivial = the scenario deletes the item; distinct = distinct (adapter, level, park, when, action, pre, bp, uo)"
+	tieLateRule = "K4-style acceptor: every single-item scenario (adapter x level x park mode x at-return / after-seed x del / cancel x 0-2 updates in the window x backpressure x updates-only) is run on the real code and its end state — the subscriber's channel closed or still open when the delete has returned and the bound has passed, number of changes received — is given to the Lean late-subscription model (Late.lean with sync = true: the adapter subscribes before it returns; PullID pipeline with or without mergeCollectionExcess), which explores every interleaving of subscribing call, subscription step, writes, pipeline goroutines and an always-receiving subscriber and must have a quiescent end state with exactly this outcome; window scenarios (park=listen: the subscribing call of raw PullID and of the 5 adapters is itself parked at the yield point between Collection.onUpdate's snapshot and bus.Listen, 0-2 updates and the delete are started there; observed through = the writes finished inside the window / the writer sat in a lock wait) go to the window model (Window.lean with locked = true, driver op `window`). non-trivial = the scenario deletes the item; distinct = distinct (adapter, level, park, when, action, pre, bp, uo)"
 )
 
 var singleNames = []string{"pullid", "metadata", "hail", "publication", "consumable", "stock"}
